@@ -31,15 +31,16 @@ LEVEL_TEXT = (
     "function), final_state (last-handled = essence, fully handled, a further event causes no write), converges, quiescent_stays, "
     "all_selected_completed + invoked_once_after_last_change (via C02), restart_safe (any restart/kill point incl. after the "
     "server applied the last write), accumulated_change. The clause 'no progress records remain' is FALSE of the code: "
-    "no_records_partial under the exact guard, stale_record_survives_witness / reverted_change_witness / blind_witness, and "
-    "absorbed_change_witness for 'completed against the final state' (known findings C03-F1..F4, each replayed on the real "
+    "no_records_partial under the exact guard `Purging` (handler reason, or no records), reverted_change_witness / blind_witness "
+    "(open findings C03-F3, C03-F2), skip_path_purges + stale_record_purged_instance (the former C03-F1, fixed by 2ae938f, its "
+    "witness kept as a regression case), and absorbed_change_witness for 'completed against the final state' (C03-F4); each replayed on the real "
     "operator in every run; C03-F5, a lost wake-up after a 422 on a finalizer patch, and C03-F6, the consequence of name-addressed "
     "patches after delete+recreate, lie in the part the model leaves to C06/C08 and are found and replayed by the oracle only). The model is hand-written and tied per pass to whole-operator simulations; finalizers/deletion "
     "(C06), daemons (C09), consistency wait (C07) are outside this model and covered by the oracle only.")
 THEOREMS = [("Kopf.Props.C03", "Kopf.C03." + n) for n in [
     "terminates", "final_state", "converges", "quiescent_stays", "no_records_partial", "all_selected_completed",
     "invoked_once_after_last_change", "restart_safe", "accumulated_change", "blind_quiescent",
-    "stale_record_survives_witness", "reverted_change_witness", "blind_witness", "absorbed_change_witness"]]
+    "skip_path_purges", "stale_record_purged_instance", "reverted_change_witness", "blind_witness", "absorbed_change_witness"]]
 RULE = ("seeded histories of one object: 1-4 change handlers (create/update/resume/delete, label filters, retries/timeout/backoff/"
         "errors, scripts with finitely many temporary/arbitrary/permanent failures then ok, three lifecycles), 0-6 external ops "
         "(spec edits, reverts, label flips, annotation edits, bursts, delete(+recreate), graceful stop / kill / kill right before or "
